@@ -189,14 +189,7 @@ func (s *loop) addObj(k lKind) *lObj {
 	case lkConnDial:
 		al := w.K.ActorListen(loopIP, o.port, sim.ConnAccept)
 		al.OnConn(func(e *sim.TCPEnd) { o.end = e })
-		// sonic's connect path uses select(2), which cannot take descriptors
-		// >= 1024 (FdSet.Set panics): dial with a low number. Recorded under C13.
-		base := w.K.FdBase
-		if base > 900 {
-			w.K.FdBase = 3
-		}
 		conn, err := sonic.Dial(s.ioc, "tcp", fmt.Sprintf("127.0.0.1:%d", o.port))
-		w.K.FdBase = base
 		if err != nil {
 			sim.Bug("Dial: %v", err)
 		}
